@@ -33,7 +33,6 @@ def Served.contactsUpstream : Served → Bool
   | .upstream _ => true
   | _ => false
 
-def lowerByte (c : UInt8) : UInt8 := if 65 ≤ c && c ≤ 90 then c + 32 else c
 /-- `strings.EqualFold` on ASCII strings -/
 def equalFold (a b : Str) : Bool := a.map lowerByte == b.map lowerByte
 
